@@ -54,7 +54,7 @@ Theorem C09_finalized_satisfies_p2sh_p2wpkh :
 Proof. exact p2sh_p2wpkh_final. Qed.
 Print Assumptions C09_finalized_satisfies_p2sh_p2wpkh.
 
-(* P2SH m-of-n multisig: every key set, every m, every signing order (pks is any duplicate-free list of m signing keys, in the order they signed) *)
+(* P2SH m-of-n multisig: every duplicate-free key set (ms_ok asks NoDup keys only, after fix a3dd5d3), every m, every signing order (pks is any duplicate-free list of m signing keys, in the order they signed) *)
 Theorem C09_finalized_satisfies_p2sh_multisig :
   forall (chk : salgo -> bytes -> bytes -> bytes -> bool) (commit : bytes -> bytes -> bytes -> bool)
     (v2 : bool) (i : pin) (m : N) (keys pks : list bytes) (sgf : bytes -> bytes),
@@ -113,13 +113,14 @@ Theorem C09_finalized_satisfies_p2sh_p2wsh_multisig :
 Proof. exact p2sh_p2wsh_ms_final. Qed.
 Print Assumptions C09_finalized_satisfies_p2sh_p2wsh_multisig.
 
-(* taproot key path (psetv2) *)
+(* taproot key path (psetv2, after fix 509b4c2: the signature carries the declared hash type, DEFAULT = ALL) *)
 Theorem C09_finalized_satisfies_taproot_key :
   forall (chk : salgo -> bytes -> bytes -> bytes -> bool) (commit : bytes -> bytes -> bytes -> bool)
     (i : pin2) (q : list byte),
     is_final2 i = false ->
     nonempty (q_tapkeysig i) = true ->
     lenN (q_tapkeysig i) <= 65 ->
+    tap_sig_ok (pi_sht (q_base i)) (q_tapkeysig i) = true ->
     length q = 32%nat ->
     chk ATapKey [] q (q_tapkeysig i) = true ->
     taproot_final i = OcOk (vector [q_tapkeysig i]) /\
@@ -138,6 +139,7 @@ Theorem C09_finalized_satisfies_taproot_leaf :
     tl_script l = tapleaf_checksig_script pk ->
     length pk = 32%nat ->
     q_tapsigs i = [{| ts_pk := pk; ts_sig := sg; ts_leaf := tapleaf_hash l |}] ->
+    tap_sig_ok (pi_sht (q_base i)) sg = true ->
     lenN sg <= 65 ->
     lenN (tl_cb l) <= 10000 ->
     length q = 32%nat ->
@@ -148,6 +150,15 @@ Theorem C09_finalized_satisfies_taproot_leaf :
     read_witness (vector w) = Some w /\ satisfies chk commit (p2tr_script q) [] w = true.
 Proof. exact tap_leaf_final. Qed.
 Print Assumptions C09_finalized_satisfies_taproot_leaf.
+
+(* a successful taproot finalization used a key signature, or at least one signature made for the finalized leaf, all of the declared hash type: too few signatures / a contradictory hash type never finalize (after fix 509b4c2) *)
+Theorem C09_taproot_finalize_requires :
+  forall (p : pset2) (k : nat) (p' : pset2) (i : pin2),
+    finalize2 p k = (p', StOk) ->
+    nth_error (q_ins p) k = Some i ->
+    osome (pi_wu (q_base i)) && is_taproot i = true -> taproot_requires i.
+Proof. exact finalize2_taproot_requires. Qed.
+Print Assumptions C09_taproot_finalize_requires.
 
 (* any permutation of the signing order gives the same ordered signatures *)
 Theorem C09_signing_order_irrelevant :
@@ -246,46 +257,6 @@ Theorem C09_extract_input_v0 :
 Proof. exact extract0_input. Qed.
 Print Assumptions C09_extract_input_v0.
 
-(* v2: holds when every input has a non-zero sequence, agreeing issuance tests, no peg-in witness, an index without flag bits. Full statement (no agree_in2 hypothesis) is refuted below *)
-Theorem C09_extract_eq_unsigned_modulo_scripts_v2_partial :
-  forall (p : pset2) (t : tx),
-    Forall agree_in2 (q_ins p) -> extract2 p = OcOk t -> strip_tx t = strip_tx (unsigned_tx2 p).
-Proof. exact extract2_eq_unsigned_partial. Qed.
-Print Assumptions C09_extract_eq_unsigned_modulo_scripts_v2_partial.
-
-Theorem C09_extract_eq_unsigned_modulo_scripts_v2_refuted :
-  exists (p : pset2) (t : tx), extract2 p = OcOk t /\ strip_tx t <> strip_tx (unsigned_tx2 p).
-Proof. exact extract2_eq_unsigned_refuted. Qed.
-Print Assumptions C09_extract_eq_unsigned_modulo_scripts_v2_refuted.
-
-(* sequence 0 is extracted as 0 but signed as 0xffffffff *)
-Theorem C09_extract_v2_sequence_refuted :
-  exists (p : pset2) (t : tx),
-    extract2 p = OcOk t /\
-    strip_tx t <> strip_tx (unsigned_tx2 p) /\
-    map in_seq (t_ins t) = [0] /\ map in_seq (t_ins (unsigned_tx2 p)) = [u32max].
-Proof. exact extract2_sequence_refuted. Qed.
-Print Assumptions C09_extract_v2_sequence_refuted.
-
-(* different issuance presence tests *)
-Theorem C09_extract_v2_issuance_refuted :
-  exists (p : pset2) (t : tx),
-    extract2 p = OcOk t /\
-    strip_tx t <> strip_tx (unsigned_tx2 p) /\
-    map (fun i : txin => osome (in_iss i)) (t_ins t) = [true] /\
-    map (fun i : txin => osome (in_iss i)) (t_ins (unsigned_tx2 p)) = [false].
-Proof. exact extract2_issuance_refuted. Qed.
-Print Assumptions C09_extract_v2_issuance_refuted.
-
-(* peg-in flag only in the extracted transaction *)
-Theorem C09_extract_v2_pegin_refuted :
-  exists (p : pset2) (t : tx),
-    extract2 p = OcOk t /\
-    strip_tx t <> strip_tx (unsigned_tx2 p) /\
-    map in_pegin (t_ins t) = [true] /\ map in_pegin (t_ins (unsigned_tx2 p)) = [false].
-Proof. exact extract2_pegin_refuted. Qed.
-Print Assumptions C09_extract_v2_pegin_refuted.
-
 (* the signature checks over the extracted transaction are those over the unsigned transaction (digest frame hypothesis) *)
 Theorem C09_extracted_checks_as_signed_v0 :
   forall (verify : bytes -> bytes -> bytes -> bool)
@@ -296,41 +267,38 @@ Theorem C09_extracted_checks_as_signed_v0 :
 Proof. exact extracted_checks_as_signed0. Qed.
 Print Assumptions C09_extracted_checks_as_signed_v0.
 
-Theorem C09_extracted_checks_as_signed_v2_partial :
+(* v2 (code after fix 0eaca09): Extract equals UnsignedTx, the transaction the signatures are
+   computed over, in every field other than input scripts and witness data, for every packet
+   whose previous-output indices are outpoint indices (0xffffffff or at most 0x3fffffff; the
+   range of wf_in in Model/Tx.v: UnsignedTx masks other values, Extract copies them) *)
+Theorem C09_extract_eq_unsigned_modulo_scripts_v2 :
+  forall (p : pset2) (t : tx),
+    Forall outpoint_index_ok (q_ins p) ->
+    extract2 p = OcOk t -> strip_tx t = strip_tx (unsigned_tx2 p).
+Proof. exact extract2_eq_unsigned. Qed.
+Print Assumptions C09_extract_eq_unsigned_modulo_scripts_v2.
+
+Theorem C09_extracted_checks_as_signed_v2 :
   forall (verify : bytes -> bytes -> bytes -> bool)
     (digest : tx -> salgo -> N -> nat -> bytes -> bytes -> bytes),
     (forall t t' : tx, strip_tx t = strip_tx t' -> digest t = digest t') ->
     forall (p : pset2) (t : tx) (k : nat) (amount : bytes),
-    Forall agree_in2 (q_ins p) ->
-    extract2 p = OcOk t ->
-    chk_dig verify digest t k amount = chk_dig verify digest (unsigned_tx2 p) k amount.
-Proof. exact extracted_checks_as_signed2_partial. Qed.
-Print Assumptions C09_extracted_checks_as_signed_v2_partial.
+    Forall outpoint_index_ok (q_ins p) ->
+    extract2 p = OcOk t -> chk_dig verify digest t k amount = chk_dig verify digest (unsigned_tx2 p) k amount.
+Proof. exact extracted_checks_as_signed2. Qed.
+Print Assumptions C09_extracted_checks_as_signed_v2.
 
-(* psetv2 taproot script path finalizes with no signature for the leaf *)
-Theorem C09_taproot_too_few_sigs_refuted :
-  exists (p p' : pset2) (i' : pin2),
-    finalize2 p 0 = (p', StOk) /\
-    nth_error (q_ins p') 0 = Some i' /\
-    pi_fwit (q_base i') = Some (vector [tl_script rf_leaf; tl_cb rf_leaf]).
-Proof. exact taproot_too_few_refuted. Qed.
-Print Assumptions C09_taproot_too_few_sigs_refuted.
-
-(* psetv2 taproot finalization does not compare hash types *)
-Theorem C09_taproot_sighash_mismatch_refuted :
-  exists p p' : pset2,
-    pi_sht (q_base (rf_tap_in 3 (repeat "004"%byte 64 ++ ["129"%byte]) [] [])) = 3 /\
-    finalize2 p 0 = (p', StOk) /\ q_ins p = [rf_tap_in 3 (repeat "004"%byte 64 ++ ["129"%byte]) [] []].
-Proof. exact taproot_sighash_mismatch_refuted. Qed.
-Print Assumptions C09_taproot_sighash_mismatch_refuted.
-
-(* the `unambiguous` hypothesis of the multisig theorems is needed: ordering by first occurrence misorders this key set *)
-Theorem C09_ambiguous_key_set_refuted :
-  exists ss : bytes,
-    legacy_sigscript false amb_in = OcOk ss /\
-    (forall k : bytes,
-    In k [amb_k2; amb_k3] -> amb_chk ALegacy (multisig_script 2 amb_keys) k (amb_sgf k) = true) /\
-    satisfies amb_chk (fun _ _ _ : bytes => true) (p2sh_script (hash160 (multisig_script 2 amb_keys)))
-    ss [] = false.
-Proof. exact ambiguous_keys_refuted. Qed.
-Print Assumptions C09_ambiguous_key_set_refuted.
+(* every sequence of distinct signers is admitted by addPartialSignature (v0) and the packet then
+   holds their signatures in signing order; add_sigs0 folds add_partial_sig0 over the list *)
+Theorem C09_signing_admitted_v0 :
+  forall (ops : list (bytes * bytes)) (p : pset0) (k : nat) (i : pin),
+    nth_error (p0_ins p) k = Some i -> sanity0 p = true ->
+    NoDup (map fst ops) ->
+    (forall pk : bytes, In pk (map fst ops) -> has_sig_for i pk = false) ->
+    (forall pk sg : bytes, In (pk, sg) ops ->
+       admit_checks i pk (osome (nth_error (t_ins (p0_tx p)) k))
+         (match nth_error (t_ins (p0_tx p)) k with Some x => in_hash x | None => [] end)
+         (match nth_error (t_ins (p0_tx p)) k with Some x => in_index x | None => 0 end) = OcOk tt) ->
+    add_sigs0 p k ops = (with_in0 p k (fun i0 : pin => set_sigs (pi_sigs i0 ++ ops) i0), StOk).
+Proof. exact signing_admitted0. Qed.
+Print Assumptions C09_signing_admitted_v0.
